@@ -110,6 +110,16 @@ CLAIMED["C06"] = dict(
     note="records pass through a JSON model when they carry symbolic numbers; fixed ISO timestamps; Redis backend and legacy formats outside",
     design="§3 C06")
 
+CLAIMED["C04"] = dict(
+    text="Bounded symbolic execution of the real queue code on in-memory and journal backends: (a) compare-and-set step of "
+         "set_trial_state_values(t, RUNNING) for two claimers in either order from every pre-state/history; (b) cursor invariant of the in-memory "
+         "WAITING fast path vs the generic path after any suffix of queue operations; (c) 2-3 workers run the real Study.ask()/suggest in "
+         "hand-over-hand threads with the interleaving of atomic storage calls chosen by the explorer and producers (enqueue/add WAITING/finish) "
+         "interleaved: no queued trial handed out twice, none skipped for good, number/user attrs kept, enqueued values (z3 reals) returned verbatim.",
+    note="storage calls atomic; journal workers are separate JournalStorage objects on one in-memory list backend; RDB row-level claim and real "
+         "threads outside; <=3 queued trials, <=3 workers",
+    design="§3 C04")
+
 NOT_APPLICABLE = {
     "C03": "thread/process pre-emption at source-line granularity inside the storage layer cannot be made a symbolic variable over the "
            "real Python code by a solver-based executor; its atomic-step obligations are discharged under C01/C04/C06/C07",
